@@ -201,4 +201,68 @@ theorem rdim_getItem (l : List Natural) (i : Nat) (h : i < l.length) :
   rw [this, List.getElem?_eq_getElem (by omega)]
   simp
 
+/-- a failing `bZip` of equally long lists fails at some position -/
+theorem bZip_none_getElem : (xs ys : List Natural) → xs.length = ys.length → bZip xs ys = none →
+    ∃ (i : Nat) (x y : Natural), xs[i]? = some x ∧ ys[i]? = some y ∧ bElem x y = none
+  | [], [], _, h => by simp [bZip] at h
+  | [], _ :: _, hl, _ => by simp at hl
+  | _ :: _, [], hl, _ => by simp at hl
+  | x :: xs, y :: ys, hl, h => by
+    simp only [List.length_cons, Nat.add_right_cancel_iff] at hl
+    simp only [bZip] at h
+    cases hxy : bElem x y with
+    | none => exact ⟨0, x, y, by simp, by simp, hxy⟩
+    | some z =>
+      simp only [hxy, Option.map_eq_none_iff] at h
+      obtain ⟨i, x', y', hx, hy, hb⟩ := bZip_none_getElem xs ys hl h
+      exact ⟨i + 1, x', y', by simpa using hx, by simpa using hy, hb⟩
+
+theorem bZip_none_rdim (xs ys : List Natural) (hl : xs.length = ys.length) (h : bZip xs ys = none) :
+    ∃ i, bElem (rdim xs i) (rdim ys i) = none := by
+  obtain ⟨i, x, y, hx, hy, hb⟩ := bZip_none_getElem xs ys hl h
+  have hi : i < xs.length := by
+    cases hlt : decide (i < xs.length) with
+    | true => simpa using hlt
+    | false =>
+      have : xs[i]? = none := List.getElem?_eq_none (by simpa using hlt)
+      rw [this] at hx; cases hx
+  refine ⟨xs.length - 1 - i, ?_⟩
+  have hj : xs.length - 1 - i < xs.length := by omega
+  have e1 : xs.length - 1 - (xs.length - 1 - i) = i := by omega
+  have e2 : ys.length - 1 - (xs.length - 1 - i) = i := by omega
+  simp only [rdim]
+  rw [List.getElem?_reverse hj, List.getElem?_reverse (by omega), e1, e2, hx, hy]
+  simpa using hb
+
+/-- **`Shape.broadcast` raises exactly when some right-aligned axis clashes** (known ranks). -/
+theorem broadcast_none_iff_clash (a b : List Natural) :
+    broadcast (some a) (some b) = none ↔ ∃ i, bElem (rdim a i) (rdim b i) = none := by
+  constructor
+  · intro h
+    simp only [broadcast] at h
+    by_cases hgt : a.length > b.length
+    · simp only [hgt, if_true, Option.map_eq_none_iff] at h
+      have hl : (List.replicate (a.length - b.length) (Natural.const 1) ++ b).length = a.length := by
+        simp only [List.length_append, List.length_replicate]; omega
+      obtain ⟨i, hi⟩ := bZip_none_rdim _ _ hl h
+      rw [rdim_pad, bElem_comm] at hi
+      exact ⟨i, hi⟩
+    · simp only [hgt, if_false, Option.map_eq_none_iff] at h
+      have hl : (List.replicate (b.length - a.length) (Natural.const 1) ++ a).length = b.length := by
+        simp only [List.length_append, List.length_replicate]; omega
+      obtain ⟨i, hi⟩ := bZip_none_rdim _ _ hl h
+      rw [rdim_pad] at hi
+      exact ⟨i, hi⟩
+  · intro ⟨i, hi⟩
+    cases hb : broadcast (some a) (some b) with
+    | none => rfl
+    | some c =>
+      cases c with
+      | none =>
+        simp only [broadcast] at hb
+        split at hb <;> simp at hb
+      | some c =>
+        have := (broadcast_dimwise a b c hb).2 i
+        rw [hi] at this; cases this
+
 end Types
